@@ -108,7 +108,10 @@ Fixpoint others_unchanged (i j : nat) (before after : list elem) : bool :=
 Inductive c06case :=
 | K1 (c : setk * option elem * pyval * result elem * result elem * list read)
 | K2 (vt cur fo : option str) (v : pyval) (w : result elem) (rs : list tread)
-| K3 (i : nat) (before after : list elem) (v : pyval) (r : result pyval).
+| K3 (i : nat) (before after : list elem) (v : pyval) (r : result pyval)
+(* UserDefined(name, value=v0, value_type=vt0, from_document=doc): [me] = the metadata entry of that name in the document (None: absent),
+   [vexp] = the value the field must show (the entry's when there is one, else v0) *)
+| K4 (me : option elem) (vt0 : option str) (v0 vexp : pyval) (w : result elem) (rs : list read).
 
 (* additional codes: 9 another logical cell than the addressed one changed (or the width is wrong) *)
 Definition chk06all (c : c06case) : nat :=
@@ -129,6 +132,16 @@ Definition chk06all (c : c06case) : nat :=
                        else if forallb (fun r : tread => elem_eqb (fst r) e) rs
                        then (if forallb (fun r : tread => tres_eqb (snd r) (get_et_typed (fst r))) rs then 0 else 4)
                        else 5
+             end
+      end
+  | K4 me vt0 v0 vexp w rs =>
+      match w with
+      | Err => match set_ud_from_doc me vt0 v0 with Err => 0 | Ok _ => 3 end
+      | Ok e =>
+        if in_domain vexp && negb (forallb (value_ok vexp) rs) then 1
+        else match set_ud_from_doc me vt0 v0 with
+             | Err => 3
+             | Ok m => if negb (elem_eqb e m) then 3 else chk_reads e rs
              end
       end
   | K3 i before after v r =>
